@@ -448,6 +448,17 @@ def make_pair(seed: int, variant: int = 0):
     return a, b, system
 
 
+def make_twin(a, seed: int, variant: int):
+    """C: the same file NAMES, volumes, grid, interpolator, order and output requests as A — only the phonon frequencies differ
+    (anything remembered under a key made of names and settings instead of the data would hand C the tables of A)."""
+    rng = sub_rng(seed, 6, variant)
+    c = copy.deepcopy(a)
+    f = rng.uniform(0.88, 1.1, size=a.freqs.shape[1:])
+    c.freqs = a.freqs * f[None]
+    c.freqs[:, 0, :3] = a.freqs[:, 0, :3]
+    return c
+
+
 INPUT_NAMES = {"input01", "elast.dat", "settings.yaml"}
 
 
@@ -690,6 +701,7 @@ def eval_e2e(seed: int, variant: int, thorough: bool, nseeds: int, time_left: fl
             fails.append((site, what, obs))
 
     a, b, system = make_pair(seed, variant)
+    c = make_twin(a, seed, variant)
     rng = sub_rng(seed, 4, variant)
     hs = [0, 1] + [int(x) for x in rng.integers(2, 2**31, size=max(1, nseeds - 2))]
     root = tempfile.mkdtemp(prefix="cijverif_c14_")
@@ -700,6 +712,7 @@ def eval_e2e(seed: int, variant: int, thorough: bool, nseeds: int, time_left: fl
         for k, h in enumerate(hs):
             subs.append(Sub(f"runA{k}", a, system, "run", h, modes[k % 3], root))
         subs.append(Sub("runB", b, system, "run", hs[-1], "clean", root))
+        subs.append(Sub("runC", c, system, "run", hs[0], "clean", root))
         for k, h in enumerate(hs):
             subs.append(Sub(f"fillA{k}", a, system, "fill", h, ["clean", "elsewhere-junk", "clean"][k % 3], root))
         subs.append(Sub("runA-shadow", a, system, "run", 0, "shadow-file", root))
@@ -756,6 +769,8 @@ def eval_e2e(seed: int, variant: int, thorough: bool, nseeds: int, time_left: fl
             hdr = goodf[0].stdout.decode(errors="replace").splitlines()[2].split()
             stats["fill_new_columns"] = len(hdr) - 1 - len(a.static_keys)
         refB = runB.files if runB.rc == 0 else None
+        runC = next(s for s in subs if s.label == "runC")
+        refC = runC.files if runC.rc == 0 else None
         # ------------------------------------------------------------ one process, both orders
         if refA is not None and refB is not None:
             def check(label, ref, files, site, what):
@@ -777,6 +792,14 @@ def eval_e2e(seed: int, variant: int, thorough: bool, nseeds: int, time_left: fl
                 gc.collect()
                 ca2, fa2 = run_inproc(a, root, "inA-afterB-release")
                 check("inA2", refA, fa2, "interleave:B-then-A:release:files-differ", "A computed after B (released) in one process differs from A in a fresh process")
+                # ---- a data set that differs from A only in the CONTENT of its phonon file (same names, settings, grid), A alive
+                if refC is not None:
+                    cc, fc_ = run_inproc(c, root, "inC-afterA-keep")
+                    check("inC1", refC, fc_, "interleave:A-then-twin:files-differ",
+                          "C (same file names and settings as A, other frequencies) computed after A in one process differs from C in a fresh process")
+                    check("inA2c", refA, write_again(ca2, root, "inA2-after-twin"), "interleave:A-written-after-twin:files-differ",
+                          "A.write_output() after its same-named twin C was computed differs from A in a fresh process")
+                    del cc
                 # ---- other commands of the package earlier in the same process (run-static in every mode, fill): "process history"
                 other = other_commands(a, root, system)
                 stats["other_commands_in_history"] = other
